@@ -434,6 +434,7 @@ func TestC07Race(t *testing.T) {
 		})
 	}
 	_ = reflect.TypeOf
+	c07Steady(t, st, rounds/50, 150)
 
 	// The package-level default instance: every round uses struct types that did not
 	// exist before (unique field names), so each round is a concurrent FIRST use on the
@@ -474,6 +475,65 @@ func TestC07Race(t *testing.T) {
 			return map[string]any{"family": "package-level default instance, fresh types", "goroutines": n}
 		})
 	}
+}
+
+// c07Steady: free-running goroutines on one instance whose codecs all exist already, each
+// repeating its own operation on its own type many times and checking every single result
+// against what the operation returns alone. (First use is what the schedule-owning checks are
+// about; this is the steady state, where only lookups and shared scratch state are left.)
+func c07Steady(t *testing.T, st *vh.Stats, rounds, reps int) {
+	fams := c07Families()
+	seed, _ := strconv.Atoi(os.Getenv("VERIF_SEED"))
+	for r := 0; r < rounds; r++ {
+		name := c07FamilyNames[(r+seed)%len(c07FamilyNames)]
+		fam := fams[name]
+		n := 2 + r%4
+		ops := make([]c07Op, n)
+		for i := range ops {
+			ts := fam[(r/5+i+seed)%len(fam)] // neighbours use different types
+			ops[i] = c07Op{Kind: []string{"marshal", "unmarshal", "codec", "unmarshal"}[(r+i)%4], T: ts, V: c07FixedVal(ts)}
+		}
+		shared := vh.NewPlenc(vh.Cfg{})
+		want := make([]string, n)
+		for i, op := range ops {
+			want[i], _ = runOp(shared, op, vh.Cfg{}) // warms every codec
+		}
+		bad := make([]string, n)
+		var wg sync.WaitGroup
+		start := make(chan struct{})
+		for i := range ops {
+			wg.Add(1)
+			go func(i int) {
+				defer wg.Done()
+				<-start
+				for rep := 0; rep < reps; rep++ {
+					got, pan := runOp(shared, ops[i], vh.Cfg{})
+					if pan != "" || got != want[i] {
+						bad[i] = fmt.Sprintf("repetition %d: %.300s %s", rep, got, pan)
+						return
+					}
+				}
+			}(i)
+		}
+		close(start)
+		wg.Wait()
+		for i := range ops {
+			if bad[i] != "" {
+				f := vh.Fail("C07/steady-state-result-differs", "round %d, %d goroutines, op %d (%s %s) on a warmed-up shared instance: %s\nalone: %.300s", r, n, i, ops[i].Kind, ops[i].T, bad[i], want[i])
+				vh.WriteFailure("C07", "owned-schedule", c07Case{Family: name, Ops: ops}, f)
+				t.Fatalf("%s", f.Error())
+			}
+		}
+		st.Record([]byte(fmt.Sprintf("steady|%s|%d|%d", name, n, r%64)), true, []string{"family:" + name, "steady-state"}, func() any {
+			return map[string]any{"family": name, "goroutines": n, "repetitions": reps, "ops": fmt.Sprint(ops[0].Kind, " ", ops[0].T, " ...")}
+		})
+	}
+}
+
+// TestC07Steady runs the steady-state part without the race detector (many more repetitions).
+func TestC07Steady(t *testing.T) {
+	runtime.GOMAXPROCS(16)
+	c07Steady(t, vh.NewStats("C07", "free-running-steady-state"), vh.N(60, 600), 1500)
 }
 
 // runOpDefault is runOp through the package-level functions (the default instance).
